@@ -9,13 +9,17 @@ from pathlib import Path
 from typing import ClassVar
 
 from schwifty.domain import Component
+from schwifty.exceptions import InvalidStructure
 
 
 _alphabet: str = string.digits + string.ascii_uppercase
 
 
 def numerify(value: str) -> int:
-    return int("".join(str(_alphabet.index(c)) for c in value))
+    try:
+        return int("".join(str(_alphabet.index(c)) for c in value))
+    except ValueError as e:
+        raise InvalidStructure(f"Invalid characters in '{value}'") from e
 
 
 def iso7064(
